@@ -17,6 +17,7 @@ import TraitsVerif.Lemmas.DslGrammar
 import TraitsVerif.Lemmas.DslParse
 import TraitsVerif.Lemmas.DslCompile
 import TraitsVerif.Lemmas.DslPy
+import TraitsVerif.Lemmas.DslEq
 namespace TraitsVerif.Props.C15
 open TraitsVerif TraitsVerif.Model.Dsl
 
@@ -418,6 +419,54 @@ every text.  With `C15_meaning`: the interpreted source denotes the documented p
 theorem C15_compile_is_source (uw : Char → Bool) (s : List Char) :
     Model.DslPy.interpCompileStr Generated.dslProg uw s = Model.DslPy.liftRes .forest (compileChars uw s) :=
   Model.DslPy.interpCompileStr_eq uw s
+
+/-- `join(e, e₁, …, eₙ)` of the source (`functools.reduce(lambda e1, e2: e1.then(e2), expressions)`,
+for any number of arguments) is the left-nested series `((e.then(e₁)).then(e₂))…` — the same
+expression as the text `e.e₁.….eₙ` up to the notify flags the caller chose; `join()` raises TypeError.
+(`lru_cache` on `parse` / `compile_str` / `compile_expr` is transparent to all of these theorems: the
+cached functions are functions of their argument (`C15_parse_deterministic`), keyed by the text /
+by `__eq__`-`__hash__` of the expression (`C15_graph_eq_is_source`, `C15_hash_consistent`); that a
+cached result is never handed out for another text is checked on the implementation (oracle
+`cache-returns-other-pattern`).) -/
+theorem C15_join_is_source (e : Expr) (es : List Expr) :
+    Model.DslPy.interpJoin Generated.dslProg e es = .ok (.expr (es.foldl .series e)) ∧
+    Model.DslPy.interpJoinL Generated.dslProg [] = .error (.exc "TypeError") :=
+  ⟨Model.DslPy.interpJoin_eq e es, Model.DslPy.join_none⟩
+
+/-! ## the equalities are the source
+
+"Removal by text matches registration by text" rests on `==` of observers,
+graphs and expressions.  `Generated.eqRows` / `hashRows` are the conjuncts of every
+`__eq__` and the components of every `__hash__` of the observer, filter, graph
+and expression classes, read from the working tree by harness/translate/eqrows.py;
+`Model.DslEq.…` is what such rows mean (Model/DslEq.lean). -/
+
+/-- The equalities the model uses — `==` of `Observer` and `Filter` (derived),
+`Forest.setEq` / `Forest.graphEq` (`ObserverGraph.__eq__`: same node, same SET of
+children, recursively) and `==` of `Expr` (the `parse(s) == parse(s')` of the
+harness) — are the interpretation of the `__eq__` methods of the source. -/
+theorem C15_graph_eq_is_source :
+    (∀ f g : Filter, Model.DslEq.filterEq Generated.eqRows f g = (f == g)) ∧
+    (∀ o o' : Observer, Model.DslEq.obsEq Generated.eqRows o o' = (o == o')) ∧
+    (∀ d f1 f2, Model.DslEq.setEqI Generated.eqRows d f1 f2 = Forest.setEq d f1 f2) ∧
+    (∀ o k o' k', Model.DslEq.graphEqI Generated.eqRows o k o' k' = Forest.graphEq o k o' k') ∧
+    (∀ e e' : Expr, Model.DslEq.exprEqI Generated.eqRows e e' = (e == e')) :=
+  ⟨Model.DslEq.filterEq_eq, Model.DslEq.obsEq_eq, Model.DslEq.setEqI_eq, Model.DslEq.graphEqI_eq,
+   fun e e' => Model.DslEq.exprEqI_eq e e'⟩
+
+/-- Every `__hash__` hashes exactly what its `__eq__` compares (class name, the
+same attributes, `frozenset` where `__eq__` compares as sets): equal objects hash
+equal, so `set` / `dict.fromkeys` / the lru caches see `__eq__`'s classes — the
+"equal elements are one element" reading of `Forest.dedupe`. -/
+theorem C15_hash_consistent :
+    Generated.hashRows = Generated.eqRows ∧ Generated.anytraitFilterIsFunction = true := by
+  decide
+
+example : Model.DslEq.graphEqI Generated.eqRows (.named ['x'] true false)
+      (.cons (.named ['a'] true false) .nil (.cons (.named ['b'] true false) .nil .nil))
+    (.named ['x'] true false)
+      (.cons (.named ['b'] true false) .nil (.cons (.named ['a'] true false) .nil .nil)) = true := by decide
+example : Model.DslEq.obsEq Generated.eqRows (.listItems true true) (.dictItems true true) = false := by decide
 
 /-- the interpreted source on concrete texts: rejected by the parser; duplicate branch kept once -/
 example : Model.DslPy.interpCompileStr Generated.dslProg (fun _ => false) "a.[b,b]:".toList =
